@@ -16,12 +16,16 @@ from .common import case, guarded, ordinal_instance, strict, rand_perm
 
 ID = "C03"
 RULE = ("exhaustive: every non-empty set of distinct strict orders over m <= 3 alternatives, every set of <= 3 orders "
-        "over m = 4 (thorough: <= 4), each in both storage orders; random m <= 7 (thorough 8), n <= 8: mixtures of planted "
+        "over m = 4 (thorough: <= 4), each in both storage orders; every 2-voter profile over 4 alternatives under two "
+        "non-contiguous id maps (0 included); every 2-voter profile over 5 alternatives + a common bottom; profiles "
+        "sharing best and second-best; sampled 3-4 voters over 4-6 alternatives; common-bottom alternatives added with "
+        "probability 0.3 to planted profiles; random m <= 7 (thorough 8), n <= 8: mixtures of planted "
         "single-peaked votes (Conitzer / Walsh style from a hidden axis) and random votes, arbitrary ids, multiplicities; "
         "planted profiles m <= 40, n <= 30 (axis through the verified checker only); large negatives = planted profile + "
         "noise with an embedded 3-4 alternative core refuted by the reference (sp_restrict). "
         "non-trivial = >= 3 alternatives and >= 2 distinct orders")
-EXHAUSTIVE = {"quick": "all sets of distinct strict orders m<=3; all sets of <=3 orders m=4; both storage orders",
+EXHAUSTIVE = {"quick": "all sets of distinct strict orders m<=3; all sets of <=3 orders m=4; both storage orders; all 2-voter "
+                       "profiles m=4 under non-contiguous ids; all 2-voter profiles m=5 + common bottom",
               "thorough": "all sets of distinct strict orders m<=3; all sets of <=4 orders m=4; both storage orders"}
 TRUSTED = ["(R) not verified, compared with the verified reference sp_decide on bounded inputs and through the verified "
            "axis checker at every size: is_single_peaked (Escoffier-Lang-Ozturk elimination); flatten_strict is "
@@ -97,6 +101,33 @@ def find_cores(rng, alts, rankings, extra=4):
     return cores
 
 
+def add_common_bottoms(rng, alts, votes, k):
+    """append k fresh alternatives ranked last, in the same order, by every voter (nested common bottoms)"""
+    extra = []
+    hi = max(alts) + 50
+    while len(extra) < k:
+        x = rng.randrange(0, hi)
+        if x not in alts and x not in extra:
+            extra.append(x)
+    return list(alts) + extra, [list(v) + extra for v in votes]
+
+
+def common_bottom_depth(rankings):
+    d = 0
+    m = len(rankings[0])
+    while d < m and len({tuple(r[m - 1 - d:]) for r in rankings}) == 1:
+        d += 1
+    return d
+
+
+def common_top2(rankings):
+    return len(rankings) >= 2 and len(rankings[0]) >= 3 and len({tuple(r[:2]) for r in rankings}) == 1
+
+
+def relabel(idmap, rankings):
+    return [[idmap[a] for a in r] for r in rankings]
+
+
 def generate(tier, seed):
     rng = random.Random(1000003 * seed + 3)
     thorough = tier != "quick"
@@ -126,12 +157,77 @@ def generate(tier, seed):
             if k > 1 and (thorough or k == 2 or rng.random() < 0.25):
                 add(alts, sub[::-1], exh=1, rev=1)
 
+    # ---- exhaustive 2-voter profiles over 4 alternatives with non-contiguous ids (0 included), both storage orders
+    for ids in ([0, 9, 4, 17], sorted(rng.sample(range(0, 1000), 4), reverse=True)):
+        idmap = dict(zip(alts, ids))
+        for sub in itertools.combinations(perms, 2):
+            v = relabel(idmap, sub)
+            add(ids, v, exh=1, ids=1)
+            add(ids, v[::-1], exh=1, ids=1, rev=1)
+
+    # ---- every 2-voter profile over 4 alternatives plus one common bottom, e.g. (0,1,2,3,9),(3,2,1,0,9)
+    idmap = dict(zip(alts, [0, 1, 2, 3]))
+    for sub in itertools.combinations(perms, 2):
+        v = [r + [9] for r in relabel(idmap, sub)]
+        add([0, 1, 2, 3, 9], v, exh=1, sweep4=1)
+        add([0, 1, 2, 3, 9], v[::-1], exh=1, sweep4=1, rev=1)
+
+    # ---- sweep: every 2-voter profile over 5 alternatives, plus a common bottom (case 2(d) with a non-empty
+    #      to_append_left when the second peak lies outside the unplaced block, e.g. (0,1,2,3,9),(3,2,1,0,9))
+    base5 = [0, 1, 2, 3, 5]
+    perms5 = list(itertools.permutations(base5))
+    pairs5 = list(itertools.combinations(perms5, 2))
+    for i, (a, b) in enumerate(pairs5):
+        nb = 1 if (not thorough or i % 2 == 0) else 2
+        bott = [9, 7][:nb]
+        v = [list(a) + bott, list(b) + bott]
+        if i % 2:
+            v = v[::-1]
+        add(base5 + bott, v, exh=1, sweep5=1)
+        if thorough:
+            add(base5 + bott, v[::-1], exh=1, sweep5=1, rev=1)
+
+    # ---- everyone shares the same best and second-best alternative (the last round of the elimination has two
+    #      unplaced alternatives and a single last-ranked one); 2-4 voters, 4-6 alternatives, arbitrary ids
+    for i in range(400 if not thorough else 4000):
+        m = rng.randint(4, 6)
+        ids = rng.sample(range(0, rng.choice([10, 60, 10 ** 6])), m)
+        top, rest = ids[:2], ids[2:]
+        axis = rand_perm(rng, rest)
+        n = rng.randint(2, 4)
+        votes = []
+        for _ in range(n):
+            if i % 3 == 2 and rng.random() < 0.4:
+                tail = rand_perm(rng, rest)
+            else:               # tail single-peaked on axis, read from a random end or from a random peak
+                tail = (conitzer if rng.random() < 0.5 else walsh)(rng, axis)
+                if i % 3 == 1:
+                    tail = sorted(rest, key=lambda a: abs(axis.index(a) - rng.choice([0, len(axis) - 1])))
+            votes.append(top + tail)
+        votes = distinct(votes)
+        if rng.random() < 0.3:
+            ids, votes = add_common_bottoms(rng, ids, votes, rng.randint(1, 2))
+        add(rand_perm(rng, ids), votes, top2=1)
+
+    # ---- sampled 3-4 voters over 4-6 alternatives, arbitrary ids, mostly planted, common bottoms with prob. 0.3
+    for i in range(600 if not thorough else 6000):
+        m = rng.randint(4, 6)
+        ids = rng.sample(range(0, rng.choice([10, 60, 10 ** 6])), m)
+        axis = rand_perm(rng, ids)
+        n = rng.randint(3, 4)
+        gen = conitzer if i % 2 == 0 else walsh
+        votes = [gen(rng, axis) if rng.random() < 0.85 else rand_perm(rng, ids) for _ in range(n)]
+        votes = distinct(votes)
+        if rng.random() < 0.3:
+            ids, votes = add_common_bottoms(rng, ids, votes, rng.randint(1, min(3, 8 - m)))
+        add(rand_perm(rng, ids), votes, s34=1)
+
     # ---- random small (reference runs), arbitrary ids
     nrand = 1200 if not thorough else 12000
     mmax = 7 if not thorough else 8
     for i in range(nrand):
         m = rng.randint(3, mmax)
-        alts = rng.sample(range(1, rng.choice([12, 100, 10 ** 9])), m)
+        alts = rng.sample(range(0, rng.choice([12, 100, 10 ** 9])), m)
         axis = rand_perm(rng, alts)
         n = rng.randint(1, 8)
         style = i % 6
@@ -149,6 +245,8 @@ def generate(tier, seed):
             votes = [rand_perm(rng, alts) for _ in range(rng.randint(1, 3))]
         rng.shuffle(votes)
         votes = distinct(votes)
+        if m < mmax and rng.random() < 0.3:
+            alts, votes = add_common_bottoms(rng, alts, votes, rng.randint(1, min(3, mmax - m)))
         mults = [rng.choice([1, 1, 2, 5, 17]) for _ in votes]
         add(rand_perm(rng, alts), votes, mults, style=style)
         if i % 3 == 0 and len(votes) > 1:
@@ -163,8 +261,11 @@ def generate(tier, seed):
         n = rng.randint(2, 30)
         gen = conitzer if i % 2 == 0 else walsh
         votes = distinct([gen(rng, axis) for _ in range(n)])
-        mults = [rng.choice([1, 2, 3]) for _ in votes]
+        nbott = rng.randint(1, 3) if rng.random() < 0.3 else 0
         if i % 2 == 0:
+            if nbott:
+                alts, votes = add_common_bottoms(rng, alts, votes, nbott)
+            mults = [rng.choice([1, 2, 3]) for _ in votes]
             add(alts, votes, mults, mode=0, large="planted")
         else:
             noise = []
@@ -180,6 +281,8 @@ def generate(tier, seed):
             allv = votes + noise
             rng.shuffle(allv)
             allv = distinct(allv)
+            if nbott:
+                alts, allv = add_common_bottoms(rng, alts, allv, nbott)
             add(alts, allv, [1] * len(allv), mode=0, cores=find_cores(rng, alts, allv), large="negative")
     return out
 
@@ -285,6 +388,18 @@ def stats(c, r, m):
             lab.append("large planted %s" % size)
     if isinstance(r, list) and r[0] == 0 and r[1] == 1:
         lab.append("axis checked %s" % size)
+    verdict = "SP" if exp == 1 else ("notSP" if exp == 0 else "unknown")
+    d = common_bottom_depth(rankings)
+    if d >= 1 and len(rankings) >= 2 and mm >= 3:
+        lab.append("common bottom (depth %s) %s" % (d if d < 3 else ">=3", verdict))
+    if common_top2(rankings):
+        lab.append("common best and second-best %s" % verdict)
+    if c["tags"].get("sweep4"):
+        lab.append("sweep 2 voters x 4 alts + common bottom: %s" % verdict)
+    if c["tags"].get("sweep5"):
+        lab.append("sweep 2 voters x 5 alts + common bottom: %s" % verdict)
+    if len(rankings) == 2:
+        lab.append("2 voters %s" % verdict)
     if c["tags"].get("rev"):
         lab.append("reversed storage order")
     if any(mu > 1 for mu in mults):
